@@ -33,7 +33,7 @@ from ..type import (
 
 __all__ = ["ast_from_value"]
 
-_re_integer_string = re.compile("^-?(?:0|[1-9][0-9]*)$")
+_re_integer_string = re.compile(r"^-?(?:0|[1-9][0-9]*)\Z")
 
 
 def ast_from_value(value: Any, type_: GraphQLInputType) -> ConstValueNode | None:
